@@ -39,6 +39,47 @@ def bound_witnesses(res):
     res.need("T7.bound-formula", 30)
 
 
+MEMW = ("memcpy", "__builtin_memcpy", "memmove", "__builtin_memmove", "memset", "__builtin_memset")
+
+
+def checked_bulk_writes(prog, res):
+    """T8: in every writer that receives (dst, capacity), a bulk copy of non-constant size into the destination is dominated by
+    a test (with an error / cannot-compress exit) that mentions the capacity or the size being copied."""
+    R = "T8.checked-bulk-write"
+    n = 0
+    for f in prog.all_functions():
+        if not f.file.startswith("lib/compress/"):
+            continue
+        dst = [i for i, p in enumerate(f.params) if p["t"].replace(" ", "").replace("const", "") in ("void*", "BYTE*", "char*") and not p["t"].lstrip().startswith("const")
+               and i + 1 < len(f.params) and "size_t" in f.params[i + 1]["t"]]
+        if not dst:
+            continue
+        sites = None
+        for b, i, c in f.calls(MEMW):
+            an = f.anchors(c["a"][0], depth=4)
+            hit = [d for d in dst if "p:%d" % d in an]
+            if not hit:
+                continue
+            k = const_val(c["a"][2])
+            if k is not None and k <= 8:
+                continue
+            if sites is None:
+                sites = guards.guard_sites(f, guards._zero_failure)
+            szan = f.sig_anchors(c["a"][2]) - {"k:0", "k:1"}
+            doms = [g for g in sites if f.must_pass(via_edges={(g.bid, g.ok)}, targets=[(b, i)])]
+            szn = {a for a in szan if not a.startswith(("k:", "m:"))}
+            if szn:     # the test must be about the size being copied
+                ok = any(szn & (g.L | g.R) for g in doms)
+            else:
+                ok = any("p:%d" % (hit[0] + 1) in (g.L | g.R) for g in doms)
+            n += 1
+            res.check(ok, R, "%s@%s" % (f.name, c.get("c")) + ":" + f.shape(c["a"][2])[:40], "%s:%s" % (f.file, c.get("l")),
+                      "the copy into dst is dominated by a capacity/size test",
+                      "%s copies %s bytes into its destination without any dominating test of the remaining capacity: a small destination is overrun before dstSize_tooSmall can be reported"
+                      % (f.name, f.shape(c["a"][2])[:60]))
+    res.need(R, 6)
+
+
 def run(tier):
     res = Result("C06", tier)
     tus, info = extract(["compress", "decompress", "common"])
@@ -49,6 +90,7 @@ def run(tier):
     guards.check_inventory(prog, res, "T8.capacity-guard", inv)
     res.need("T8.capacity-guard", len(inv))
     capacity.dst_capacity_pairs(prog, res, "T8.dst-capacity-pair", ["lib/compress/", "lib/decompress/"], 36)
+    checked_bulk_writes(prog, res)
     t4_common.run(prog, res, "T4.error-discipline", ["lib/compress/"], 220)
 
     # the one deliberate swallow: dstSize_tooSmall -> 0 only when the raw block still fits
